@@ -98,7 +98,7 @@ def main():
                 "VERIF_SEED=%d; every other name concrete and distinct per scope" % (c2.TAG_MENU, c2.KEY_MENU, seed)],
             outside=["more headers than the bound; more than one date per header; quoted / inline / bullet properties "
                      "(Appendix B); names outside the menus (the all-digit test is a character loop over the name)"])
-        T = 75 if tier == "quick" else 240
+        T = 120 if tier == "quick" else 240
         env = {"XH_TIER": tier, "XH_SEED": seed}
         conds = [xh.Cond(path, "sk_%d" % i, timeout=T, env=env,
                          meta={"variant": s.name, "family": "c02", "bound": "holes " + ", ".join("%s:%s" % (h.name, h.kind) for h in s.holes())})
